@@ -62,6 +62,7 @@ func NewConfig(prop string, tier string, r *core.Rand) Config {
 		}
 	case "C03":
 		c.PTamper = 0.35
+		c.Metamorphic = r.Chance(0.4)
 		c.PInvalid = 0.05
 		c.KindW["proposal"], c.KindW["vote"], c.KindW["setdoc"], c.KindW["withdraw"], c.KindW["unstake"] = 1, 1.5, 1, 1.5, 2
 	case "C04":
@@ -441,6 +442,9 @@ func (g *Generator) govOption() string {
 
 func (g *Generator) mutation(kind string) *Mutation {
 	fields := []string{"amount", "to", "from", "from-resign", "nonce", "gas", "gasprice", "type", "time", "version", "payload", "sig", "sig", "sig", "sig", "sig"}
+	if kind == "transfer" || kind == "stake" {
+		fields = append(fields, "inject", "inject", "inject")
+	}
 	f := fields[g.r.Intn(len(fields))]
 	mu := &Mutation{Field: f}
 	switch f {
@@ -714,7 +718,15 @@ func (g *Generator) hostileValid(h int64) Intent {
 	case 3:
 		return Intent{Kind: "withdraw", Actor: g.richActor(), Amt: []string{"0", "2^255", "2^256-1"}[g.r.Intn(3)]}
 	case 4:
-		return Intent{Kind: "proposal", Actor: g.richActor(), Start: 1, Period: g.w.M.Gov.MinVotingPeriodBlocks, Opts: [][]string{{}, {""}, {"{"}, {"[]"}, {"{\"gasPrice\":-1}"}, {"{\"gasPrice\":{}}"}, {"null"}}[g.r.Intn(7)]}
+		act := g.richActor()
+		if vals := g.w.leader().State.NextValidators.Validators; len(vals) > 0 {
+			if i := g.actorIdx(ToAddr(vals[g.r.Intn(len(vals))].Address)); i >= 0 {
+				act = i
+			}
+		}
+		return Intent{Kind: "proposal", Actor: act, Start: 1, Period: g.w.M.Gov.MinVotingPeriodBlocks,
+			OptType: []int32{0, 0x0101, 0x0200, 0x0200, 0x0100, 7, -1}[g.r.Intn(7)],
+			Opts:    [][]string{{}, {}, {""}, {"{"}, {"[]"}, {"{\"gasPrice\":-1}"}, {"{\"gasPrice\":{}}"}, {"null"}}[g.r.Intn(8)]}
 	case 5:
 		return Intent{Kind: "call", Actor: g.richActor(), To: "z", Data: ""}
 	default:
